@@ -39,6 +39,9 @@ CLAIMED = {
     "C09": dict(level="model_checking", ref="4/C09", technique="TLA+ reference precedence-climbing parser (Pratt.tla) as trace specification of the real parser on TLC-enumerated token strings (TokGen.tla)",
                 text="TLC enumerates all well-formed token strings up to 5 tokens and all operator triples with prefix choices (plus simulated strings up to 12 tokens); the real front end parses each rendered text (keyword, symbolic-alias and keyword-prefixed-identifier spellings) and the compiled tree must have the value Pratt!Parse gives at every assignment over {0,1,2,3,5,7}.",
                 note="value equality on a finite assignment grid; rendering of tokens to text is done by the driver"),
+    "C10": dict(level="model_checking", ref="4/C10", technique="TLA+ trace validation of Exp::simplify/flatten on TLC-enumerated trees (RewriteTrace: value equality on all small assignments, idempotence, kept denominators) and of respelled twin models through the text front end (LinTrace predicates + equal acceptance)",
+                text="All trees of depth <= 1 and the depth-2 family of ExprGen.tla are rewritten by the real code and compared by value with the specification's Eval at every small assignment; twins of corpus-K models in other constant spellings must be accepted together and both satisfy the projection/objective predicates against the first spelling's source model.",
+                note="logic operand positions hold logic-typed trees; twin texts are rendered by the driver"),
 }
 NOT_YET = {}
 ALL = [f"C{i:02d}" for i in range(1, 21)]
